@@ -203,7 +203,15 @@ def check_maps(ctx, chk):
             idx = cn.show(ev.data["idx"])
             base = cn.show(ev.data["base"])
             cond = cn.conj(tuple(c for c in ev.pc if c[0] not in ("inloop", "fact")))
-            ok = got == want and idx == f"{D}[1]['os']" and f"[{D}[1]['{key1}']]" in base
+            # the inner map is the outer map's entry for the definition's own service / process:
+            # outer[key] or outer.setdefault(key, {})
+            bt = ev.data["base"]
+            okey = None
+            if bt[0] == "sub":
+                okey = cn.show(bt[2])
+            elif bt[0] == "mcall" and bt[2] in ("setdefault", "get") and bt[3]:
+                okey = cn.show(bt[3][0])
+            ok = got == want and idx == f"{D}[1]['os']" and okey == f"{D}[1]['{key1}']"
             detail = f"stored under [{base[-60:]}][{idx}] fields {got} when {f_show(cond)[:200]}"
         chk.ob("C11.definition", f"Scenario.{prop}: every field copied from the definition, indexed "
                f"by the definition's own ({key1}, os)", ok, detail, fi.module.path)
